@@ -24,6 +24,7 @@ from tools.gen import vmaccess as gen_vm
 from tools.gen import pegaccess as gen_peg
 from tools.gen import unmarsh as gen_unmarsh
 from tools.gen import vmguards as gen_vmguards
+from tools.gen import nanbox as gen_nanbox
 from tools.gen.csrc import ExtractError
 
 from vlib import build as vbuild
@@ -36,7 +37,9 @@ THEOREMS = ["JanetModel.Props.C10." + t for t in (
     "JanetModel.Props.C10.unmarshal_total_inbounds_of_sites_ok", "JanetModel.Props.C10.unmarshal_terminates_of_sites_ok",
     "JanetModel.Props.C10.witness_missing_check_over_reads", "JanetModel.Props.C10.witness_uncounted_env_recursion",
     "JanetModel.Unmarsh.Bytes.unmarshal_total_inbounds_generic", "JanetModel.Unmarsh.Bytes.unmarshal_terminates_generic",
-    "JanetModel.Unmarsh.Bytes.unmarshal_depth_bounded_generic", "JanetModel.Props.C10.unmarshal_depth_bounded_of_sites_ok"]
+    "JanetModel.Unmarsh.Bytes.unmarshal_depth_bounded_generic", "JanetModel.Props.C10.unmarshal_depth_bounded_of_sites_ok",
+    "JanetModel.Props.C10.real_is_number_of_ok", "JanetModel.Props.C10.real_never_a_pointer_of_ok", "JanetModel.Props.C10.witness_unsafe_real_forges_pointer"]
+NANBOX_OBLIGATIONS = ["JanetModel.Unmarsh.NanBoxObligations." + t for t in ("nanbox_ok", "real_is_number", "real_never_a_pointer")]
 GUARD_OBLIGATIONS = ["JanetModel.Bytecode.GuardObligations.vm_value_guards", "JanetModel.Bytecode.GuardObligations.vm_value_guards_nonempty"]
 BYTES_OBLIGATIONS = ["JanetModel.Unmarsh.BytesObligations." + t for t in ("sites_ok", "refs_checked", "depths_ok", "unmarshal_total_inbounds", "unmarshal_terminates", "unmarshal_depth_bounded", "peg_size_checked", "asm_ok_only_after_verify")] + [
     "JanetModel.Unmarsh.PegSize.peg_alloc_covers_writes", "JanetModel.Unmarsh.PegSize.witness_peg_size_wraps"]
@@ -394,6 +397,91 @@ def witness_images(ig, lb, ops):
     return w
 
 
+def nanbox_patterns(rng, n_random):
+    """64-bit payloads: every tag x interesting payloads x sign / quiet bit, exponent / mantissa boundaries, random"""
+    ws = set()
+    for t in range(16):
+        for hi in (0x1FFF0 | t, 0x0FFF0 | t, 0x1FFE0 | t, 0x0FFE0 | t, 0x1FFF0 ^ 8 | t):
+            for pay in (0, 1, 2, 0x41414141, (1 << 47) - 1, 1 << 46, 0x7F0000001000):
+                ws.add(((hi << 47) | pay) & ((1 << 64) - 1))
+    for sign in (0, 1):
+        for ex in (0, 1, 1022, 1023, 1024, 2046, 2047):
+            for man in (0, 1, 2, (1 << 51) - 1, 1 << 51, (1 << 51) + 1, (1 << 52) - 1, 0x8000041414141, 0x41414141):
+                ws.add((sign << 63) | (ex << 52) | man)
+    for _ in range(n_random):
+        w = rng.below(1 << 32) << 32 | rng.below(1 << 32)
+        if rng.chance(1, 2):
+            w |= 0x7FF << 52          # half of them NaN / infinity
+        if rng.chance(1, 4):
+            w |= 0xFFF8 << 48
+        ws.add(w)
+    return sorted(ws)
+
+
+def nanbox_correspondence(ctx, exe, lb, broken, quick):
+    """model `unmarshalReal` / `janetType` / `checktype` (constants of the current janet.h) vs harness/C10/nanbox.c (the real
+    janet_unmarshal of LB_REAL <payload>, janet_type, janet_checktype for every type): bit pattern, type, mask must agree; a
+    payload whose unmarshalled value is not a plain number is the failing input"""
+    st = {"compared": 0, "differ": 0, "nan_payloads": 0, "reboxed_to_NAN": 0, "kept_bits": 0, "not_a_number": 0, "nan_bits_of_build": None}
+    extra = []
+    if not exe:
+        return st, extra
+    try:
+        hn = ctx.build.harness(VARIANT, "c10nanbox", [os.path.join(HDIR, "nanbox.c")])
+    except BuildError as e:
+        broken.append("harness/C10/nanbox.c does not compile against the current tree: %s" % str(e)[-300:])
+        ctx.broken.append(broken[-1])
+        return st, extra
+    ws = nanbox_patterns(ctx.rng.fork("nanbox"), 20000 if quick else 400000)
+    rc, out, err = run_cmd([hn], input=("\n".join(str(w) for w in ws) + "\n").encode(), timeout=600, env=ENV)
+    real = out.decode().splitlines()
+    if rc != 0 or len(real) != len(ws) + 1:
+        broken.append("nanbox harness died: rc=%s %s" % (rc, err[-300:]))
+        ctx.broken.append(broken[-1])
+        return st, extra
+    model = ctx.model(["nanbox"] + ["nanbox %d" % w for w in ws], exe=exe)
+    hdr = real[0].split()
+    st["nan_bits_of_build"] = "%#x" % int(hdr[1])
+    if "sizeof=8" not in real[0]:
+        broken.append("nanbox: sizeof(Janet) != 8 (%s): the build does not use JANET_NANBOX_64, the model does not apply" % real[0])
+        ctx.broken.append(broken[-1])
+        return st, extra
+    if "nan=%s " % hdr[1] not in model[0] + " ":
+        broken.append("nanbox: NAN of the build is %s, the obligation is stated for %s" % (real[0], model[0]))
+        ctx.broken.append(broken[-1])
+    if "ok=true" not in model[0]:
+        broken.append("real_is_number: NB.ok is false for the constants of the current source (%s)" % model[0])
+    diffs = []
+    lead = lb["LB_REAL"]
+    for w, r, m in zip(ws, real[1:], model[1:]):
+        st["compared"] += 1
+        isnan = (w >> 52) & 0x7FF == 0x7FF and w & ((1 << 52) - 1) != 0
+        st["nan_payloads"] += isnan
+        rf = r.split()
+        if len(rf) == 3:
+            if int(rf[0]) == w:
+                st["kept_bits"] += 1
+            elif int(rf[0]) == int(hdr[1]):
+                st["reboxed_to_NAN"] += 1
+            if rf[1] != "0" or rf[2] != "1":
+                st["not_a_number"] += 1
+                if len(extra) < 40:
+                    # little-endian image bytes, as harness/C10/nanbox.c builds them on this machine
+                    extra.append(("real-forged", "payload %#018x -> type %s mask %s" % (w, rf[1], rf[2]), "u " + (bytes([lead]) + w.to_bytes(8, "little")).hex()))
+        if r != m:
+            st["differ"] += 1
+            if len(diffs) < 5:
+                diffs.append({"payload": "%#018x" % w, "impl": r, "model": m})
+    if diffs:
+        broken.append("correspondence nanbox model / unmarshal of LB_REAL: %d differing, first %r" % (st["differ"], diffs[0]))
+        ctx.broken.append(broken[-1])
+    if extra:
+        e0 = extra[0]
+        ctx.violation("real-forges-type", {"kind": "crash", "generator": "nanbox", "mutation": e0[1], "input": e0[2], "count": st["not_a_number"]},
+                      what="unmarshal of LB_REAL with a NaN payload yields a value that is not a plain number (%s); %d such payloads" % (e0[1], st["not_a_number"]))
+    return st, extra
+
+
 def function_correspondence(ctx, exe, cases, outs, broken, img_broken):
     """accept / reject of the Lean function-image model vs the real unmarshaller on the modelled function images: `inv` = every
     check present (= the conclusion of function_image_wf_of_all_checks), `src` = the checks extracted from the current source"""
@@ -477,7 +565,7 @@ def run(ctx):
         broken.append("translator: %s" % e)
         ctx.broken.append(broken[-1])
     # the session-3 translators are independent of the ones above: a shape change seen by one must not hide the others' tables
-    for fname, mod in (("UnmarshSites.lean", gen_unmarsh), ("VmGuards.lean", gen_vmguards)):
+    for fname, mod in (("UnmarshSites.lean", gen_unmarsh), ("VmGuards.lean", gen_vmguards), ("NanBox.lean", gen_nanbox)):
         try:
             ctx.gen(fname, mod.render(tree))
         except ExtractError as e:
@@ -512,6 +600,8 @@ def run(ctx):
     broken += bytes_broken
     guard_broken = ctx.obligations("JanetModel.Bytecode.GuardObligations", GUARD_OBLIGATIONS)
     broken += guard_broken
+    nan_broken = ctx.obligations("JanetModel.Unmarsh.NanBoxObligations", NANBOX_OBLIGATIONS)
+    broken += nan_broken
     if not quick and not broken:
         ok, log = ctx.leanchecker("JanetModel.Props.C10")
         if not ok:
@@ -527,6 +617,9 @@ def run(ctx):
         rg = ctx.model(["vmguards"], exe=exe)[0]
         if rg.startswith("bad"):
             broken.append("vm_value_guards: value-dependent dereference without a dominating run-time test in vm.c: %s" % rg[4:])
+    # (D0) NaN-boxing model vs the real unmarshaller on 64-bit payloads after LB_REAL
+    nstats, nan_cases = nanbox_correspondence(ctx, exe, lb, broken, quick)
+    ctx.say("nanbox model correspondence: %s" % json.dumps(nstats))
     # (D) correspondence of the verify model with the real janet_verify
     vrng = ctx.rng.fork("verify")
     vlines = []
@@ -607,7 +700,7 @@ def run(ctx):
     wit = sorted(witness_images(ig, lb, ops).items())
     for name, b in wit:
         cases.insert(0, ("witness", name, "u " + b.hex()))
-    cases = [c if len(c) == 4 else tuple(c) + (None,) for c in synth + cases]
+    cases = [c if len(c) == 4 else tuple(c) + (None,) for c in synth + nan_cases + cases]
     # (D4, first half) inputs for the byte-level model correspondence: the same byte strings once more as `m` lines (plain
     # janet_unmarshal with &next, no exercising), run in the same pool; the Lean driver works on them meanwhile
     bpick = []
@@ -879,7 +972,7 @@ def run(ctx):
                 "function/fiber is then called with 6 argument vectors / resumed, cancelled, stepped, iterated, printed, hashed, compared, re-marshalled and collected",
         "samples": [c[2][:80] for c in cases[:3]] + [c[2][:80] for c in cases[len(cases) // 2:len(cases) // 2 + 2]],
         "generators": stats, "accepted": acc_total, "reject_classes": dict(sorted(rej_classes.items(), key=lambda kv: -kv[1])[:25]),
-        "crash_signatures": {k: v[3] for k, v in by_sig.items()}, "fiber_model_correspondence": mstats, "function_model_correspondence": fstats, "peg_model_correspondence": pstats, "bytes_model_correspondence": bstats, "bad_read_sites": bad_sites, "uncounted_recursion_paths": bad_depths,
+        "crash_signatures": {k: v[3] for k, v in by_sig.items()}, "fiber_model_correspondence": mstats, "function_model_correspondence": fstats, "nanbox_model_correspondence": nstats, "peg_model_correspondence": pstats, "bytes_model_correspondence": bstats, "bad_read_sites": bad_sites, "uncounted_recursion_paths": bad_depths,
         "deep_nesting": deep_stats,
         "peg_bad_rows": [pegrows.name_of.get(o, o) for o in peg_bad] if pegrows is not None else None,
         "resource_exits_not_counted": resource_exits,
@@ -907,6 +1000,15 @@ def replay(ctx, path):
             sig = classify(crashes[-1][1], crashes[-1][2])
             print(crashes[-1][2][-2500:])
             ctx.violation("crash:" + sig, dict(r, stderr=crashes[-1][2][-3000:]), what="replayed: " + sig)
+        elif r.get("generator") == "nanbox":
+            hn = ctx.build.harness(VARIANT, "c10nanbox", [os.path.join(HDIR, "nanbox.c")])
+            w = int.from_bytes(bytes.fromhex(r["input"][2:])[1:9], "little")
+            rc, out, err = run_cmd([hn], input=("%d\n" % w).encode(), timeout=60, env=ENV)
+            ans = out.decode().splitlines()[-1].split()
+            if len(ans) == 3 and (ans[1] != "0" or ans[2] != "1"):
+                ctx.violation("real-forges-type", r, what="replayed: payload %#x still unmarshals to type %s mask %s" % (w, ans[1], ans[2]))
+            else:
+                ctx.say("replay: payload now unmarshals to a plain number: %s" % ans)
         elif r.get("generator") in ("mfiber", "mfunc") and outs[-1] and outs[-1].startswith("acc"):
             ctx.violation(r.get("signature", "ill-formed-image-accepted"), r, what="replayed: ill-formed %s image is still accepted" % ("fiber" if r.get("generator") == "mfiber" else "function"))
         else:
